@@ -120,12 +120,32 @@ def _classify(cases):
             _GAP[r] = a
 
 
+_WHY = {}
+
+
+def _why_request(case):
+    sreq = case.get("spec_request") or ""
+    if sreq.startswith("spec-tr-expand "):
+        return "tr-expand-why " + sreq[len("spec-tr-expand "):]
+    return None
+
+
 @predicate("c17_zero_rep_tail")
 def c17_zero_rep_tail(case, m):
     """the use meets `Spec.Match.zeroRepTail` for some rule (decided by the Lean driver, the same
     function that guards the _partial theorems), the implementation answered normally (an expansion or
     a reported error), and the specification has an expansion"""
     req = case.get("request", "")
+    if req.startswith("tr-expand "):
+        # a form transformed by Vm::transform: some use visited during the expansion is in the gap (the test `uses` of
+        # Spec.ExpandAll.expandGuard fails; a use with unequal counts would have made the spec answer `mismatch`)
+        impl, spec = case.get("impl", ""), case.get("spec") or ""
+        w = _why_request(case)
+        if w is None or not (" ok " in impl or " err " in impl) or " ok " not in spec:
+            return False
+        if w not in _WHY:
+            _WHY[w] = driver_batch([w])[0]
+        return _WHY[w] == "use"
     if _gap_request(req) is None:
         return False
     impl, spec = case.get("impl", ""), case.get("spec") or ""
@@ -136,16 +156,6 @@ def c17_zero_rep_tail(case, m):
     if req not in _GAP:
         _classify([case])
     return _GAP.get(req) == "gap"
-
-
-_WHY = {}
-
-
-def _why_request(case):
-    sreq = case.get("spec_request") or ""
-    if sreq.startswith("spec-tr-expand "):
-        return "tr-expand-why " + sreq[len("spec-tr-expand "):]
-    return None
 
 
 @predicate("c17_driver_keyword_binding")
